@@ -426,23 +426,38 @@ theorem LoopInv.exit {m a t nt r s : ℤ} (hm : 2 ≤ m) (h : LoopInv m a t nt r
   · refine ⟨by omega, by omega, hcong⟩
   · refine ⟨by omega, by omega, hcong⟩
 
-/-- **`Rust.inverse` is correct for a non-negative operand** (modulus `≠ 0, ±1`):
-an error exactly when `gcd(a, n) ≠ 1`, otherwise the representative `t ∈ [0, |n|)` with
-`a·t ≡ 1 (mod |n|)`; the fuel `|a| + 1` is never exhausted (no `panic`). -/
-theorem inverse_correct (a n : ℤ) (ha : 0 ≤ a) (hn : 2 ≤ n.natAbs) :
+/-- **`Rust.inverse` is correct for every operand** (modulus `≠ 0, ±1`): an error exactly when
+`gcd(a, n) ≠ 1`, otherwise the representative `t ∈ [0, |n|)` with `a·t ≡ 1 (mod |n|)`; the
+fuel is never exhausted (no `panic`). The operand is reduced into `[0, |n|)` first, which is
+the domain on which the loop invariant holds. -/
+theorem inverse_correct (a n : ℤ) (hn : 2 ≤ n.natAbs) :
     (Int.gcd a n ≠ 1 → inverse a n = err) ∧
     (Int.gcd a n = 1 → ∃ t, inverse a n = ok t ∧ 0 ≤ t ∧ t < (n.natAbs : ℤ) ∧
       (n.natAbs : ℤ) ∣ 1 - a * t) := by
-  have hn0 : ¬ (n = 1 ∨ n = 0) := by omega
   have hm : (2 : ℤ) ≤ (n.natAbs : ℤ) := by exact_mod_cast hn
+  have hmne : (n.natAbs : ℤ) ≠ 0 := by omega
+  have hn0 : ¬ ((n.natAbs : ℤ) = 1 ∨ (n.natAbs : ℤ) = 0) := by omega
+  have hfmod : Int.fmod a (n.natAbs : ℤ) = a % (n.natAbs : ℤ) :=
+    Int.fmod_eq_emod_of_nonneg a (by omega)
+  set a' := a % (n.natAbs : ℤ) with ha'
+  have ha0 : 0 ≤ a' := Int.emod_nonneg _ hmne
   obtain ⟨t', nt', r', s', heq, hfin⟩ :=
-    inverseLoop_spec (n.natAbs : ℤ) a (a.natAbs + 1) 0 1 (n.natAbs : ℤ) a 1
-      (LoopInv.init _ _ (by omega) ha) (by omega)
+    inverseLoop_spec (n.natAbs : ℤ) a' (a'.natAbs + 1) 0 1 (n.natAbs : ℤ) a' 1
+      (LoopInv.init _ _ (by omega) ha0) (by omega)
   obtain ⟨hr, hone⟩ := hfin.exit hm
-  have hg : (Int.gcd (n.natAbs : ℤ) a : ℤ) = (Int.gcd a n : ℤ) := by
-    rw [Int.gcd_comm]; simp [Int.gcd, Int.natAbs_abs]
+  have hg : (Int.gcd (n.natAbs : ℤ) a' : ℤ) = (Int.gcd a n : ℤ) := by
+    have h1 : Int.gcd a' (n.natAbs : ℤ) = Int.gcd a (n.natAbs : ℤ) := Int.gcd_emod a _
+    rw [Int.gcd_comm, h1]; simp [Int.gcd, Int.natAbs_abs]
+  -- congruences for `a'` transfer to `a`
+  have hcong : ∀ t : ℤ, (n.natAbs : ℤ) ∣ 1 - a' * t → (n.natAbs : ℤ) ∣ 1 - a * t := by
+    intro t ht
+    have e : 1 - a * t = (1 - a' * t) - (n.natAbs : ℤ) * (a / (n.natAbs : ℤ) * t) := by
+      have := Int.emod_def a (n.natAbs : ℤ)
+      rw [ha', this]; ring
+    rw [e]
+    exact Int.dvd_sub ht (Int.dvd_mul_right _ _)
   unfold inverse
-  simp only [hn0, if_false, getModulus_eq, heq, bind_ok]
+  simp only [getModulus_eq, hn0, if_false, hfmod, ← ha', heq, bind_ok]
   constructor
   · intro hne
     have : r' > 1 := by
@@ -460,10 +475,11 @@ theorem inverse_correct (a n : ℤ) (ha : 0 ≤ a) (hn : 2 ≤ n.natAbs) :
     simp only [this, if_false]
     by_cases hneg : t' < 0
     · refine ⟨t' + n.natAbs, by simp [hneg], by omega, by omega, ?_⟩
-      have : 1 - a * (t' + (n.natAbs : ℤ)) = (1 - a * t') - (n.natAbs : ℤ) * a := by ring
+      apply hcong
+      have : 1 - a' * (t' + (n.natAbs : ℤ)) = (1 - a' * t') - (n.natAbs : ℤ) * a' := by ring
       rw [this]
       exact Int.dvd_sub hdvd (Int.dvd_mul_right _ _)
-    · exact ⟨t', by simp [hneg], by omega, hhi, hdvd⟩
+    · exact ⟨t', by simp [hneg], by omega, hhi, hcong _ hdvd⟩
 
 end Rust
 
@@ -753,16 +769,13 @@ theorem orLast1_odd : ∀ l : Bytes, l ≠ [] → ofDigits 256 (orLast1 l) % 2 =
       have e : x * (256 ^ k * 256) = 2 * (x * 256 ^ k * 128) := by ring
       rw [e]; omega
 
-theorem mask_eq (rt : ℕ) (h0 : rt ≠ 0) (h8 : rt < 8) : 255 >>> (8 - rt) = 2 ^ rt - 1 := by
-  interval_cases rt <;> simp_all
-
-/-- **bounds of the candidate** built by `generate_prime_in_range` from any random bytes:
-when `range_bits % 8 ≠ 0` the candidate is `2^size + x` with `x < 2^range` and `x` odd, in both
-overflow modes (no assertion fails, nothing panics) -/
-theorem primeCandidate_bounds (m : OvfMode) (size range : ℕ) (rnd : Bytes)
-    (h1 : 1 < range) (h2 : range ≤ size) (h8 : range % 8 ≠ 0)
+/-- **bounds of the candidate** built by `generate_prime_in_range` from any random bytes, for
+every `size_bits`, `range_bits` that pass the two assertions: the candidate is `2^size + x`
+with `x < 2^range` and `x` odd (no assertion fails, nothing panics) -/
+theorem primeCandidate_bounds (size range : ℕ) (rnd : Bytes)
+    (h1 : 1 < range) (h2 : range ≤ size)
     (hlen : rnd.length = range / 8 + 1) (hb : ∀ b ∈ rnd, b < 256) :
-    ∃ x : ℕ, primeCandidate m size range rnd = ok (((2 ^ size + x : ℕ) : ℤ)) ∧ x < 2 ^ range ∧ x % 2 = 1 := by
+    ∃ x : ℕ, primeCandidate size range rnd = ok (((2 ^ size + x : ℕ) : ℤ)) ∧ x < 2 ^ range ∧ x % 2 = 1 := by
   obtain ⟨top, rest, rfl⟩ : ∃ top rest, rnd = top :: rest := by
     cases rnd with
     | nil => simp at hlen
@@ -770,20 +783,15 @@ theorem primeCandidate_bounds (m : OvfMode) (size range : ℕ) (rnd : Bytes)
   have hrest : rest.length = range / 8 := by simpa using hlen
   have hs1 : size > 1 := by omega
   have hcond : range > 1 ∧ range ≤ size := ⟨h1, h2⟩
-  have hrt8 : range % 8 < 8 := Nat.mod_lt _ (by norm_num)
   unfold primeCandidate
-  simp only [hs1, hcond, not_true_eq_false, if_false, and_self, hlen, ne_eq]
-  have hmask : rangeMask m (range % 8) = ok (2 ^ (range % 8) - 1) := by
-    unfold rangeMask; simp only [h8, if_false]; rw [mask_eq _ h8 hrt8]
-  rw [hmask]
-  simp only [bind_ok]
+  simp only [hs1, hcond, not_true_eq_false, if_false, and_self, hlen, ne_eq, rangeMask, Nat.one_shiftLeft]
   set offs := size / 8 + 1 - (range / 8 + 1) with hoffs
   have hk : range / 8 ≤ size / 8 := Nat.div_le_div_right h2
   -- the buffer after `|= 1`
   have hbuf1 : orLast1 (List.replicate offs 0 ++ top :: rest) =
       List.replicate offs 0 ++ orLast1 (top :: rest) := orLast1_append _ _ (by simp)
   rw [hbuf1, List.drop_left' (by simp), orLast1_cons]
-  simp only [mapHead, Nat.and_two_pow_sub_one_eq_mod, Nat.one_shiftLeft]
+  simp only [mapHead, Nat.and_two_pow_sub_one_eq_mod]
   set top' := (if rest = [] then top ||| 1 else top) with htop'
   set t := top' % 2 ^ (range % 8) with ht
   set rest' := orLast1 rest with hrest'
@@ -806,11 +814,11 @@ theorem primeCandidate_bounds (m : OvfMode) (size range : ℕ) (rnd : Bytes)
     by_cases hr : rest = []
     · have hk0 : range / 8 = 0 := by rw [← hrest, hr]; rfl
       have hr' : rest' = [] := by rw [hrest', hr]; rfl
+      have h8 : range % 8 ≠ 0 := by omega
       rw [hk0, hr']
       simp only [pow_zero, mul_one, ofDigits_nil, add_zero]
       rw [ht, htop']
       simp only [hr, if_true]
-      have hpos : 0 < range % 8 := Nat.pos_of_ne_zero h8
       have hdvd : 2 ∣ 2 ^ (range % 8) := dvd_pow_self 2 h8
       rw [Nat.mod_mod_of_dvd _ hdvd]
       exact or_one_odd top
@@ -1167,5 +1175,73 @@ theorem Ossl.toHex_reads_back (a : ℤ) :
     unfold Spec.parseNumeral
     simp only [k3, if_false, k2, k1, map_ok]
     congr 1
+
+/-! ### `is_numeral` is exactly the strict grammar -/
+
+theorem Spec.parseDigits_of_all (radix : ℕ) : ∀ (s : Text) (acc : ℕ),
+    (s.all fun c => (radixDigit radix c).isSome) = true → ∃ v, Spec.parseDigits radix s acc = ok v := by
+  intro s
+  induction s with
+  | nil => intro acc _; exact ⟨acc, rfl⟩
+  | cons c cs ih =>
+    intro acc h
+    simp only [List.all_cons, Bool.and_eq_true] at h
+    obtain ⟨d, hd⟩ := Option.isSome_iff_exists.mp h.1
+    simp only [Spec.parseDigits, hd]
+    exact ih _ h.2
+
+theorem Spec.parseDigits_of_not_all (radix : ℕ) : ∀ (s : Text) (acc : ℕ),
+    (s.all fun c => (radixDigit radix c).isSome) = false → Spec.parseDigits radix s acc = err := by
+  intro s
+  induction s with
+  | nil => intro acc h; simp at h
+  | cons c cs ih =>
+    intro acc h
+    simp only [Spec.parseDigits]
+    cases hd : radixDigit radix c with
+    | none => rfl
+    | some d =>
+      simp only [List.all_cons, hd, Option.isSome_some, Bool.true_and] at h
+      exact ih _ h
+
+/-- the guard `is_numeral` accepts exactly the texts the specification reads -/
+theorem Spec.parseNumeral_isNumeral (radix : ℕ) (s : Text) :
+    (isNumeral radix s = true → ∃ v, Spec.parseNumeral radix s = ok v) ∧
+    (isNumeral radix s = false → Spec.parseNumeral radix s = err) := by
+  unfold isNumeral Spec.parseNumeral
+  by_cases hm : s.head? = some '-'
+  · simp only [hm, if_true]
+    by_cases ht : s.tail = []
+    · simp [ht]
+    · have he : s.tail.isEmpty = false := by simpa using ht
+      simp only [he, Bool.not_false, Bool.true_and, ht, if_false]
+      constructor
+      · intro h
+        obtain ⟨v, hv⟩ := Spec.parseDigits_of_all radix s.tail 0 h
+        exact ⟨_, by rw [hv]; rfl⟩
+      · intro h; rw [Spec.parseDigits_of_not_all radix s.tail 0 h]; rfl
+  · simp only [hm, if_false]
+    by_cases hs : s = []
+    · simp [hs]
+    · have he : s.isEmpty = false := by simpa using hs
+      simp only [he, Bool.not_false, Bool.true_and, hs, if_false]
+      constructor
+      · intro h
+        obtain ⟨v, hv⟩ := Spec.parseDigits_of_all radix s 0 h
+        exact ⟨_, by rw [hv]; rfl⟩
+      · intro h; rw [Spec.parseDigits_of_not_all radix s 0 h]; rfl
+
+/-- **the guarded parsers of both back-ends are the specification, for every text** -/
+theorem parsers_eq_spec (radix : ℕ) (hr : radix = 10 ∨ radix = 16) (s : Text) :
+    (if !isNumeral radix s then err else Rust.parseBigInt radix s) = Spec.parseNumeral radix s ∧
+    (if !isNumeral radix s then err else Ossl.parsePrefix radix s) = Spec.parseNumeral radix s := by
+  obtain ⟨h1, h2⟩ := Spec.parseNumeral_isNumeral radix s
+  cases hn : isNumeral radix s with
+  | false => simp [h2 hn]
+  | true =>
+    obtain ⟨v, hv⟩ := h1 hn
+    simp only [Bool.not_true, Bool.false_eq_true, if_false]
+    rw [hv, Spec.parseNumeral_rust radix hr s v hv, Spec.parseNumeral_ossl radix hr s v hv]
+    exact ⟨rfl, rfl⟩
 
 end CL.BN
